@@ -48,7 +48,7 @@ def gen(tier, rng):
                         continue
                     dw, dh = (sw, sh) if box is None else (box[2], box[3])
                     alpha = (n // 3) % 2 == 0
-                    cpu = rz.CPUS[n % 3]
+                    cpu = rz.pick(n, 112, rz.CPUS)
                     lay = [None, {"k": "image_ref"}, {"k": "crop_ref", "pad": [1, 2, 1, 0]}][n % 3]
                     dlay = [None, {"k": "slice", "extra": 3}, {"k": "crop_mut", "pad": [2, 0, 1, 1]}][(n // 3) % 3]
                     cases.append(rz.resize_case(pt, sw, sh, dw, dh, alg=alg, flt=flt, m=m, alpha=alpha, box=box, Q=1, cpu=cpu,
@@ -75,7 +75,7 @@ def gen(tier, rng):
                             for k in range(nc):
                                 i = (y * sw + x) * nc + k
                                 other[i] = alt[(i * 7 + 3) % len(alt)]
-                cpu = rz.CPUS[g % 3]
+                cpu = rz.pick(g, 113, rz.CPUS)
                 for content, chk in ((base, ("pipeline", "ret_ok", "outside")), (other, ("pipeline", "ret_ok", "same_except"))):
                     cases.append(rz.resize_case(pt, sw, sh, dw, dh, alg=alg, flt=flt, m=m, alpha=False, cpu=cpu,
                                                 src_c={"g": "data", "v": content}, log=("dst",), chk=chk, g=10000 + g,
@@ -93,7 +93,7 @@ def gen(tier, rng):
                     mx = {"u8": 255, "u16": 65535}.get(rz.PT[pt]["comp"])
                     for p in range(sw * sh):
                         cont[p * nc + nc - 1] = mx if mx else rz.f32bits(1.0)
-                cases.append(rz.resize_case(pt, sw, sh, dw, dh, alg="ss", flt="Lanczos3", m=1, alpha=alpha, cpu=rz.CPUS[g % 3],
+                cases.append(rz.resize_case(pt, sw, sh, dw, dh, alg="ss", flt="Lanczos3", m=1, alpha=alpha, cpu=rz.pick(g, 114, rz.CPUS),
                                             src_c={"g": "data", "v": cont}, log=("src", "dst"),
                                             chk=("pipeline", "ret_ok", "near", "outside", "srcsame")))
     return cases
